@@ -362,8 +362,34 @@ fn run_mode(ctx: &Ctx, rep: &mut Report, mode: Mode) {
     rep.assume("best-of-n oracle: minimum over subsets of the rule-derived class ordinal, cross-checked on every explored hand against a direct rule evaluator");
 }
 
+fn representative_items(witness: bool) -> Vec<Case> {
+    let d = deck();
+    let mut items = Vec::new();
+    for n in [6usize, 7] {
+        let size = if n == 6 { "six" } else { "seven" };
+        for k in 0..8usize {
+            let w: Vec<u32> = (0..n).map(|i| d[(k * 6 + i * (k % 3 + 1)) % 52].word()).collect();
+            if super::c01::distinct_cards(&w).is_none() {
+                continue;
+            }
+            if witness {
+                items.push(Case::w32(&format!("{}.witness", size), &w));
+            } else {
+                for e in VALUE_ENTRIES {
+                    items.push(Case::w32(&format!("{}.{}", size, e), &w));
+                }
+            }
+        }
+    }
+    if witness {
+        items.push(Case::w32("five.witness", &[d[0].word(), d[20].word(), d[3].word(), d[40].word(), d[7].word()]));
+    }
+    items
+}
+
 pub fn run_c02(ctx: &Ctx, rep: &mut Report) {
     run_mode(ctx, rep, Mode::Value);
+    super::history2(rep, judge, &representative_items(false));
     super::history::space(rep, 6, false, ctx.tier.thorough());
     super::history::space(rep, 7, false, ctx.tier.thorough());
     rep.rule = "distinct (hand, slot order) pairs; non-trivial = the best five-card hand is not the one in the first five canonical slots (so the search over slot combinations matters)".into();
@@ -376,6 +402,7 @@ pub fn run_c02(ctx: &Ctx, rep: &mut Report) {
 
 pub fn run_c03(ctx: &Ctx, rep: &mut Report) {
     run_mode(ctx, rep, Mode::Witness);
+    super::history2(rep, judge, &representative_items(true));
     for n in 5..=7 {
         super::history::space(rep, n, true, ctx.tier.thorough());
     }
